@@ -24,6 +24,15 @@
 (* are [k |-> "N", s, n, d] with little-endian base-10^4 limb sequences    *)
 (* COMPUTED HERE with BigArith (10^12, 10^12/7, 2^62, 2^63-1, 2^63, 10^30) *)
 (* and only transcribed digit-group by digit-group by Python.              *)
+(*                                                                         *)
+(* Node kind of a constant.  A number record in the position of a constant *)
+(* EXPRESSION NODE (initial / default value, constant node of a condition, *)
+(* effect value, cost, duration bound, actual parameter of a plan step)    *)
+(* denotes the node the expression manager builds from the number: an      *)
+(* INT constant when the value is integral, a REAL constant otherwise.     *)
+(* The other node with an integral value -- the REAL constant 3/1, written *)
+(* Real(Fraction(3)), of type real[3, 3] and different from Int(3) -- is   *)
+(* [k |-> "r", n, d] (limb form [k |-> "R", s, n, d]): see RealNode.       *)
 (***************************************************************************)
 EXTENDS Integers, Sequences, FiniteSets, TLC, Json, IOUtils, SequencesExt
 
@@ -37,6 +46,9 @@ Z(n) == NV(n, 1)
 BV(b) == [k |-> "b", b |-> b]
 OV(o) == [k |-> "o", o |-> o]
 Big(s, n, d) == [k |-> "N", s |-> s, n |-> n, d |-> d]
+\* the REAL constant node whose value is the (integral) number v
+RealNode(v) == IF v.k = "n" THEN [k |-> "r", n |-> v.n, d |-> v.d]
+               ELSE [k |-> "R", s |-> v.s, n |-> v.n, d |-> v.d]
 
 Mk(op, args, name, v, vars) == [op |-> op, args |-> args, name |-> name, v |-> v, vars |-> vars]
 CE(v) == Mk("const", <<>>, "", v, <<>>)
@@ -170,14 +182,27 @@ NTypeCase(f) ==
    IN PCase("ntype", f.base \o ":" \o f.lo \o ":" \o f.hi \o ":" \o f.pos, TRUE, P)
 
 \* ---------- 2. constant forms ----------
+\* node = "auto": the constant node the expression manager builds from the number;
+\* node = "real": the REAL constant node with that (integral) value, in every position that holds an
+\* expression node (an oversubscription weight is a number, not a node)
 ConstTags == {"zero", "one", "neg", "large", "neglarge", "third", "negthird", "r227",
               "big12", "negbig12", "big12_7", "negbig12_7", "inv12", "p62", "maxi64", "mini64",
               "over64", "big30", "big30_3", "inv63"}
-ConstForms == [c : ConstTags, pos : {"init", "default", "goal", "effect", "cost", "weight"}]
+IntegralTags == {"zero", "one", "neg", "large", "neglarge", "big12", "negbig12", "p62", "maxi64", "mini64", "over64"}
+AutoPos == {"init", "default", "goal", "effect", "cost", "weight"}
+RealPos == {"init", "default", "goal", "effect", "cost", "costdefault", "pre", "incr", "dur", "teff", "final"}
+ConstForms ==
+   {f \in [c : ConstTags, pos : AutoPos \cup RealPos, node : {"auto", "real"}] :
+       \/ (f.node = "auto" /\ f.pos \in AutoPos)
+       \/ (f.node = "real" /\ f.pos \in RealPos /\ f.c \in IntegralTags)}
 XR == Fl("x", TReal, <<>>, UNDEF)
 ConstCase(f) ==
-   LET c == Num(f.c)
+   LET c == IF f.node = "real" THEN RealNode(Num(f.c)) ELSE Num(f.c)
        asg == Inst("a", <<>>, <<>>, << Eff("assign", "x", <<>>, CE(c), TrueE, <<>>) >>)
+       inc == Inst("a", <<>>, <<>>, << Eff("inc", "x", <<>>, CE(c), TrueE, <<>>) >>)
+       pre == Inst("a", <<>>, << Bin("lt", CE(c), FlE("x", <<>>)) >>, << Eff("assign", "b", << ObjE("o1") >>, TrueE, TrueE, <<>>) >>)
+       dur == Dura("d", << Par("x", TUser("T")) >>, Iv(CE(c), Bin("plus", CE(c), CE(Z(2))), FALSE, FALSE), <<>>,
+                   << [t |-> Tm("end", Z(0)), e |-> Eff("assign", "b", << ParE("x") >>, TrueE, TrueE, <<>>)] >>)
        P == CASE f.pos = "init" ->
                    Prob(<< XR >>, << [f |-> "x", args |-> <<>>, v |-> c] >>, << SetB >>, << B("o1") >>, <<>>, <<>>, NoMetric)
               [] f.pos = "default" ->
@@ -192,7 +217,21 @@ ConstCase(f) ==
               [] f.pos = "weight" ->
                    Prob(<< XR >>, <<>>, << SetB >>, << B("o1") >>, <<>>, <<>>,
                         Metric("oversub", <<>>, NoE, NoE, << [g |-> B("o2"), w |-> c] >>))
-   IN PCase("const", f.c \o ":" \o f.pos, TRUE, P)
+              [] f.pos = "costdefault" ->
+                   Prob(<< XR >>, <<>>, << SetB >>, << B("o1") >>, <<>>, <<>>, Metric("costs", <<>>, CE(c), NoE, <<>>))
+              [] f.pos = "pre" ->
+                   Prob(<< XR >>, <<>>, << pre >>, << B("o1") >>, <<>>, <<>>, NoMetric)
+              [] f.pos = "incr" ->
+                   Prob(<< XR >>, <<>>, << inc >>, << B("o1") >>, <<>>, <<>>, NoMetric)
+              [] f.pos = "dur" ->
+                   Prob(<<>>, <<>>, << dur >>, << B("o1") >>, <<>>, <<>>, NoMetric)
+              [] f.pos = "teff" ->
+                   Prob(<< XR >>, <<>>, << SetB >>, << B("o1") >>, <<>>,
+                        << [t |-> Tm("gstart", Z(5)), e |-> Eff("assign", "x", <<>>, CE(c), TrueE, <<>>)] >>, NoMetric)
+              [] f.pos = "final" ->
+                   Prob(<< XR >>, <<>>, << SetB >>, << B("o1") >>, <<>>, <<>>,
+                        Metric("maxfinal", <<>>, NoE, Bin("plus", FlE("x", <<>>), CE(c)), <<>>))
+   IN PCase("const", f.c \o (IF f.node = "real" THEN "~realnode" ELSE "") \o ":" \o f.pos, TRUE, P)
 
 \* ---------- 3. timepoint kinds x delays ----------
 DelayTags == {"zero", "five", "neg3", "third", "neg2third", "big12_7"}
@@ -314,10 +353,13 @@ StepsOf(shape, t, d) ==
      [] shape = "aa" -> << Step("a", << OV("o1") >>, t, NONE), Step("a", << OV("o2") >>, t, NONE) >>
      [] shape = "n-rat" -> << Step("n", << Z(2), Num("third"), BV(TRUE) >>, t, NONE) >>
      [] shape = "n-int" -> << Step("n", << Z(2), Z(1), BV(FALSE) >>, t, NONE) >>
+     \* the actual parameter r is the REAL constant node 1/1 resp. 0/1 (n-int passes the INT constant 1)
+     [] shape = "n-realnode" -> << Step("n", << Z(2), RealNode(Z(1)), BV(FALSE) >>, t, NONE),
+                                   Step("n", << Z(0), RealNode(Z(0)), BV(TRUE) >>, t, NONE) >>
      [] shape = "d" -> << Step("d", << OV("o2") >>, t, d) >>
      [] shape = "ad" -> << Step("a", << OV("o1") >>, t, NONE), Step("d", << OV("o2") >>, t, d) >>
 PlanForms ==
-   {f \in [kind : {"seq", "tt", "po", "stn"}, shape : {"empty", "a", "aa", "n-rat", "n-int", "d", "ad"},
+   {f \in [kind : {"seq", "tt", "po", "stn"}, shape : {"empty", "a", "aa", "n-rat", "n-int", "n-realnode", "d", "ad"},
            t : {"none", "zero", "third", "big12_7"}, d : {"none", "two", "third", "zero", "big12_7"}] :
       /\ (f.kind = "tt") = (f.t # "none")
       /\ (f.kind = "tt" /\ f.shape \in {"d", "ad"}) = (f.d # "none")
